@@ -1,4 +1,5 @@
 import Pms.Props.C04
+import Pms.Props.C04Mod
 
 #print axioms Pms.Sq.C04_dispatch
 #print axioms Pms.Sq.C04_routing
@@ -17,3 +18,4 @@ import Pms.Props.C04
 #print axioms Pms.Sq.C04_wave_source
 #print axioms Pms.Sq.C04_default_vectors
 #print axioms Pms.Sq.C04_source_shape
+#print axioms Pms.ModShape.C04_module_shape
